@@ -34,6 +34,9 @@ type EncOpts struct {
 	Recipient *rsa.PublicKey
 	Rand      io.Reader // for symmetric key, IV, padding
 	InheritNS bool      // plaintext without its own namespace declaration (inherits the Response's)
+	// EnvelopeNSFromRoot: the EncryptedAssertion element does not declare its own prefix; it relies on the
+	// declaration on the Response root (only layouts whose root declares xmlns:saml)
+	EnvelopeNSFromRoot bool
 }
 
 var DataAlgs = []string{types.MethodAES128GCM, types.MethodAES192GCM, types.MethodAES256GCM, types.MethodAES128CBC, types.MethodAES256CBC}
@@ -72,6 +75,7 @@ func DrawEncOpts(t *core.Tape, recipient *rsa.PublicKey, spCert []byte) *EncOpts
 		o.EmbedCert = spCert
 	}
 	o.Rand = t.SubRand("enc.rand")
+	o.EnvelopeNSFromRoot = t.Int(3, "enc.nsfromroot") == 1
 	return o
 }
 
